@@ -551,84 +551,146 @@ func ruleMark(r *core.Reporter) {
 			}
 		}
 	})
-	if len(stores) != 1 {
-		r.Violated("markCompleted/store", fnPos(p, mc), "%d stores to status in markCompleted, expected exactly one", len(stores))
+	if len(stores) == 0 {
+		r.Violated("markCompleted/store", fnPos(p, mc), "markCompleted never completes a node")
 		return
 	}
-	st := stores[0]
-	if v, ok := ir.ConstInt(st.Val); !ok || v != states["ItemCompleted"] {
-		r.Violated("markCompleted/store", p.InstrPos(st), "markCompleted stores %s, expected ItemCompleted", ir.Path(st.Val))
-	} else if !sameNode(st.Addr, mc.Params[0]) {
-		r.Violated("markCompleted/store", p.InstrPos(st), "markCompleted completes a node other than its argument")
-	} else {
-		r.Held("markCompleted/store", 1, "only status store writes ItemCompleted to the visited node")
-	}
-	// guard 1: status ∈ {GotChildren, GotRedirected}: removing both true edges makes the store unreachable
-	var statusEdges, childEdges [][2]any
-	for _, ii := range ir.Ifs(mc) {
-		a := ii.Atom
-		if a.V == nil && a.Op == token.EQL {
-			if _, f, ok := fieldOfLoad(a.X); ok && f == "status" {
-				if v, okc := ir.ConstInt(a.Y); okc && (v == states["ItemGotChildren"] || v == states["ItemGotRedirected"]) {
-					statusEdges = append(statusEdges, [2]any{ii.If.Block(), ii.EdgeWhen(true)})
-				}
-			}
-			// len(children)==0
-			if c, ok := a.X.(*ssa.Call); ok && ir.CallName(c.Common()) == "builtin.len" {
-				if v, okc := ir.ConstInt(a.Y); okc && v == 0 {
-					childEdges = append(childEdges, [2]any{ii.If.Block(), ii.EdgeWhen(true)})
-				}
-			}
+	statusCovered := map[int64]bool{}
+	for si, st := range stores {
+		sfx := ""
+		if len(stores) > 1 {
+			sfx = fmt.Sprintf("#%d", si+1)
 		}
-		if c := ir.BoolCallAtom(a, pkgModels+".allChildrenCompleted"); c != nil {
-			childEdges = append(childEdges, [2]any{ii.If.Block(), ii.EdgeWhen(true)})
-		}
-	}
-	without := func(edges [][2]any) bool {
-		res := ir.Reach([]ir.Pt{ir.Entry(mc)}, ir.Opts{EdgeOK: func(b *ssa.BasicBlock, s int) bool {
-			for _, e := range edges {
-				if e[0].(*ssa.BasicBlock) == b && e[1].(int) == s {
-					return false
-				}
-			}
-			return true
-		}})
-		return res.Reached[st]
-	}
-	if len(statusEdges) == 2 && !without(statusEdges) {
-		r.Held("markCompleted/status-guard", 2, "completion only for status ∈ {GotChildren, GotRedirected}")
-	} else {
-		r.Violated("markCompleted/status-guard", p.InstrPos(st), "the ItemCompleted store is reachable for a node whose status is not GotChildren/GotRedirected (guards found: %d)", len(statusEdges))
-	}
-	if len(childEdges) >= 1 && !without(childEdges) {
-		r.Held("markCompleted/children-guard", len(childEdges), "completion only when there is no child or allChildrenCompleted()")
-	} else {
-		r.Violated("markCompleted/children-guard", p.InstrPos(st), "the ItemCompleted store is reachable although children may still have work (guards found: %d)", len(childEdges))
-	}
-	// recursion first: a self call inside a loop over the children, and the store only after the loop
-	var rec *ssa.Call
-	allInstrs(mc, func(in ssa.Instruction) {
-		if c, ok := in.(*ssa.Call); ok && ir.CalleeOf(c.Common()) == mc {
-			rec = c
-		}
-	})
-	if rec == nil {
-		r.Violated("markCompleted/children-first", fnPos(p, mc), "markCompleted does not recurse into the children")
-	} else {
-		// store must not be reachable from entry without passing the loop head that controls the recursion:
-		// i.e. the block of the recursive call is in a cycle and the store is not in that cycle
-		inCycle := ir.Reach([]ir.Pt{ir.After(rec)}, ir.Opts{}).Reached[rec]
-		storeBeforeRec := ir.Reach([]ir.Pt{ir.After(st)}, ir.Opts{}).Reached[rec]
-		argOK := false
-		if len(rec.Call.Args) == 1 {
-			pth := ir.Path(rec.Call.Args[0])
-			argOK = strings.Contains(pth, "GetChildren()") || strings.Contains(pth, ".children")
-		}
-		if inCycle && !storeBeforeRec && argOK && loopCoversAll(mc, rec) {
-			r.Held("markCompleted/children-first", 1, "every child is visited (range loop without early exit) before the parent is decided")
+		if v, ok := ir.ConstInt(st.Val); !ok || v != states["ItemCompleted"] {
+			r.Violated("markCompleted/store"+sfx, p.InstrPos(st), "markCompleted stores %s, expected ItemCompleted", ir.Path(st.Val))
+		} else if !sameNode(st.Addr, mc.Params[0]) {
+			r.Violated("markCompleted/store"+sfx, p.InstrPos(st), "markCompleted completes a node other than its argument")
 		} else {
-			r.Violated("markCompleted/children-first", p.InstrPos(rec), "children are not all completed before the parent is decided (loop=%v storeBeforeRec=%v arg=%v)", inCycle, storeBeforeRec, argOK)
+			r.Held("markCompleted/store"+sfx, 1, "only status store writes ItemCompleted to the visited node")
 		}
+		// guard 1: status ∈ {GotChildren, GotRedirected}: removing both true edges makes the store unreachable
+		var statusEdges, childEdges [][2]any
+		for _, ii := range ir.Ifs(mc) {
+			a := ii.Atom
+			if a.V == nil && a.Op == token.EQL {
+				if _, f, ok := fieldOfLoad(a.X); ok && f == "status" {
+					if v, okc := ir.ConstInt(a.Y); okc && (v == states["ItemGotChildren"] || v == states["ItemGotRedirected"]) {
+						statusEdges = append(statusEdges, [2]any{ii.If.Block(), ii.EdgeWhen(true)})
+					}
+				}
+				// len(children)==0
+				if c, ok := a.X.(*ssa.Call); ok && ir.CallName(c.Common()) == "builtin.len" {
+					if v, okc := ir.ConstInt(a.Y); okc && v == 0 {
+						childEdges = append(childEdges, [2]any{ii.If.Block(), ii.EdgeWhen(true)})
+					}
+				}
+			}
+			if c := ir.BoolCallAtom(a, pkgModels+".allChildrenCompleted"); c != nil {
+				childEdges = append(childEdges, [2]any{ii.If.Block(), ii.EdgeWhen(true)})
+			}
+		}
+		without := func(edges [][2]any) bool {
+			res := ir.Reach([]ir.Pt{ir.Entry(mc)}, ir.Opts{EdgeOK: func(b *ssa.BasicBlock, s int) bool {
+				for _, e := range edges {
+					if e[0].(*ssa.BasicBlock) == b && e[1].(int) == s {
+						return false
+					}
+				}
+				return true
+			}})
+			return res.Reached[st]
+		}
+		if len(statusEdges) >= 1 && !without(statusEdges) {
+			// which statuses lead to this store
+			for _, ii := range ir.Ifs(mc) {
+				a := ii.Atom
+				if a.V == nil && a.Op == token.EQL {
+					if _, f, ok := fieldOfLoad(a.X); ok && f == "status" {
+						if v, okc := ir.ConstInt(a.Y); okc {
+							start := ir.Pt{B: ii.If.Block().Succs[ii.EdgeWhen(true)], I: 0}
+							if ir.Reach([]ir.Pt{start}, ir.Opts{}).Reached[st] {
+								statusCovered[v] = true
+							}
+						}
+					}
+				}
+			}
+			r.Held("markCompleted/status-guard"+sfx, len(statusEdges), "completion only for status ∈ {GotChildren, GotRedirected}")
+		} else {
+			r.Violated("markCompleted/status-guard"+sfx, p.InstrPos(st), "the ItemCompleted store is reachable for a node whose status is not GotChildren/GotRedirected (guards found: %d)", len(statusEdges))
+		}
+		if len(childEdges) >= 1 && !without(childEdges) {
+			r.Held("markCompleted/children-guard"+sfx, len(childEdges), "completion only when there is no child or allChildrenCompleted()")
+		} else {
+			r.Violated("markCompleted/children-guard"+sfx, p.InstrPos(st), "the ItemCompleted store is reachable although children may still have work (guards found: %d)", len(childEdges))
+		}
+		// …and nothing else: any further condition on the path to the store makes completion stricter than
+		// "status is GotChildren/GotRedirected and no child has work" (a node would stay pending forever)
+		extra := ""
+		for _, ii := range ir.Ifs(mc) {
+			for _, t := range []bool{true, false} {
+				if !ir.OnlyVia(ir.Entry(mc), st, ii.If.Block(), ii.EdgeWhen(t)) {
+					continue
+				}
+				a := ii.Atom
+				okAtom := false
+				if a.V == nil && a.Op == token.EQL {
+					if _, f, ok := fieldOfLoad(a.X); ok && f == "status" {
+						okAtom = true
+					}
+					if c, ok := a.X.(*ssa.Call); ok && ir.CallName(c.Common()) == "builtin.len" {
+						okAtom = true
+					}
+					if ir.IsNilConst(a.Y) || ir.IsNilConst(a.X) {
+						okAtom = true // node == nil
+					}
+				}
+				if a.V == nil && a.Op == token.LSS {
+					okAtom = true // loop bound of the children scan
+				}
+				if ir.BoolCallAtom(a, pkgModels+".allChildrenCompleted") != nil {
+					okAtom = true
+				}
+				if !okAtom {
+					extra = describeAtom(a)
+				}
+			}
+		}
+		if extra == "" {
+			r.Held("markCompleted/no-extra-condition"+sfx, 1, "completion depends on nothing but the node's status and its children having no work")
+		} else {
+			r.Violated("markCompleted/no-extra-condition"+sfx, p.InstrPos(st), "completion of a parent additionally requires %s: a node whose children are all done (or gone) can stay GotChildren/GotRedirected forever, so the seed is never declared complete", extra)
+		}
+		// recursion first: a self call inside a loop over the children, and the store only after the loop
+		var rec *ssa.Call
+		allInstrs(mc, func(in ssa.Instruction) {
+			if c, ok := in.(*ssa.Call); ok && ir.CalleeOf(c.Common()) == mc {
+				rec = c
+			}
+		})
+		if rec == nil {
+			r.Violated("markCompleted/children-first"+sfx, fnPos(p, mc), "markCompleted does not recurse into the children")
+		} else {
+			// store must not be reachable from entry without passing the loop head that controls the recursion:
+			// i.e. the block of the recursive call is in a cycle and the store is not in that cycle
+			inCycle := ir.Reach([]ir.Pt{ir.After(rec)}, ir.Opts{}).Reached[rec]
+			storeBeforeRec := ir.Reach([]ir.Pt{ir.After(st)}, ir.Opts{}).Reached[rec]
+			argOK := false
+			if len(rec.Call.Args) == 1 {
+				pth := ir.Path(rec.Call.Args[0])
+				argOK = strings.Contains(pth, "GetChildren()") || strings.Contains(pth, ".children")
+			}
+			if inCycle && !storeBeforeRec && argOK && loopCoversAll(mc, rec) {
+				r.Held("markCompleted/children-first"+sfx, 1, "every child is visited (range loop without early exit) before the parent is decided")
+			} else {
+				r.Violated("markCompleted/children-first"+sfx, p.InstrPos(rec), "children are not all completed before the parent is decided (loop=%v storeBeforeRec=%v arg=%v)", inCycle, storeBeforeRec, argOK)
+			}
+		}
+	}
+	if statusCovered[states["ItemGotChildren"]] && statusCovered[states["ItemGotRedirected"]] {
+		r.Held("markCompleted/both-parent-kinds", 2, "both GotChildren and GotRedirected parents can be completed")
+	} else {
+		r.Violated("markCompleted/both-parent-kinds", fnPos(p, mc), "a parent kind (GotChildren=%v, GotRedirected=%v) is never completed", statusCovered[states["ItemGotChildren"]], statusCovered[states["ItemGotRedirected"]])
 	}
 	// allChildrenCompleted: `true` is returned only if no child HasWork
 	{
